@@ -272,16 +272,26 @@ def rule_s(ctx):
     if gets and ys:
         got = gets[0].targets[0].id
         stop = False
-        for test, branch in flow.guards_of(ys[0], t):
+        for test0, branch0 in flow.guards_of(ys[0], t):
+            test, neg = A.strip_not(test0)
+            branch = (branch0 != neg)
             if isinstance(test, ast.Compare) and len(test.ops) == 1 and A.is_name(test.left, got) \
                     and A.is_name(test.comparators[0], S.sentinel):
                 if isinstance(test.ops[0], ast.Is) and not branch:
                     stop = True
                 if isinstance(test.ops[0], ast.IsNot) and branch:
                     stop = True
-        brk = [n for n in A.walk_stmts(t.body) if isinstance(n, ast.If) and isinstance(n.test, ast.Compare)
-               and A.is_name(n.test.left, got) and A.is_name(n.test.comparators[0], S.sentinel)
-               and isinstance(n.test.ops[0], ast.Is) and any(isinstance(x, (ast.Break, ast.Return)) for x in n.body)]
+        brk = []
+        for n in A.walk_stmts(t.body):
+            if not isinstance(n, ast.If):
+                continue
+            tt, neg = A.strip_not(n.test)
+            if isinstance(tt, ast.Compare) and A.is_name(tt.left, got) and A.is_name(tt.comparators[0], S.sentinel) \
+                    and isinstance(tt.ops[0], (ast.Is, ast.IsNot)):
+                is_ = isinstance(tt.ops[0], ast.Is) != neg
+                arm = n.body if is_ else n.orelse
+                if any(isinstance(x, (ast.Break, ast.Return)) for x in arm):
+                    brk.append(n)
         ok = stop or (bool(brk) and brk[0].lineno < ys[0].lineno)
         rep.ob('S4', 'parallel_utils.single_thread_prefetch::stops-on-the-sentinel-by-identity-only', ok, t,
                '' if ok else 'the end marker must be recognised with `is` and nothing else may end or skip deliveries')
@@ -314,7 +324,17 @@ def rule_li(ctx):
         if isinstance(n, ast.Assign) and isinstance(n.value, ast.Call) and isinstance(n.value.func, ast.Attribute) \
                 and n.value.func.attr == 'copy' and A.is_self_attr(n.value.func.value, INPUT_ATTR):
             frozen = n.targets[0].id
-    idefs = flow.assigned_names(it).get('iterable', [])
+    lpm_fn = ctx.repo.module('parallel_utils').functions['lazy_parallel_map']
+    it_names = set()
+    for c in calls:
+        gb = flow.bind(c, lpm_fn, skip_self=False).args.get('generator')
+        if isinstance(gb, ast.Name):
+            it_names.add(gb.id)
+    if len(it_names) != 1:
+        raise AnalysisError('undecidable shape: lazy_parallel_map call sites of PrefetchDataset.__iter__ do not share one '
+                            'iterable variable (%s)' % sorted(it_names))
+    it_name = it_names.pop()
+    idefs = flow.assigned_names(it).get(it_name, [])
     okr = False
     okk = False
     for d in idefs:
@@ -328,7 +348,7 @@ def rule_li(ctx):
            % [A.short(d) for d in idefs])
     for c in calls:
         b = flow.bind(c, ctx.repo.module('parallel_utils').functions['lazy_parallel_map'], skip_self=False)
-        ok = A.is_name(b.args.get('generator'), 'iterable')
+        ok = A.is_name(b.args.get('generator'), it_name)
         f = b.args.get('function')
         fdefs = []
         if isinstance(f, ast.Name):
